@@ -550,7 +550,12 @@ PROPS["C10"] = {
     "level_text": ("PARTIAL. Lean: the C01 round-trip theorem restated with the field count and the primitive codec as parameters "
                    "(roundtrip_generic, _int, _float); the specification decoder is generic in the schema. The template text of "
                    "stefc is NOT translated: that generated code is the model instantiated at a schema, and that it compiles, is "
-                   "only observed on the drawn schemas (compile, run, Lean decoder as independent oracle on every stream)."),
+                   "only observed on the drawn schemas (compile, run, Lean decoder as independent oracle on every stream). Since the record-API "
+                   "model (Stef/Api.lean, Props/C01Api.lean) the observation is sharper: for every generated schema whose calls the "
+                   "serializer supports, each history is replayed call by call on the schema-generic Lean model of the generated "
+                   "API and the frames it encodes must equal the real frames byte for byte (op `ap`), and `se reencode` regenerates "
+                   "every frame with the proved encoder - the generated package is checked to BE the model instantiated at its "
+                   "schema on every history, and the model's round trip is a theorem (api_stream_roundtrip_partial)."),
 }
 
 PROPS["C04"] = {
